@@ -15,7 +15,7 @@ from checks import wf
 from checks.c08 import fcfg
 
 PROP = "C09"
-KINDS = ["eof", "unexpected", "custom", "partial"]
+KINDS = ["eof", "unexpected", "custom", "partial", "transient"]
 
 
 def model(run, thorough):
@@ -38,6 +38,14 @@ def model(run, thorough):
     if not (r.violated and "Temporal" in str(r.violated)):
         raise vlib.InfraError("vacuity guard: as-is protocol with a failing source should violate Terminates, got %s" % r.violated)
     run.configs.append({"config": "negative: as-is, FailAt=3", "violates": "Terminates"})
+    # a source that fails once and then recovers: the first error must stay recorded
+    for F in range(0, S * C):
+        r = vlib.tlc_ok(vlib.run_tlc("WorkflowFast", fcfg(W, S, C, F=F, live=True, tr="TRUE"), timeout=1800), "WorkflowFast transient FailAt=%d" % F)
+        run.add_tlc(r, "WorkflowFast W=%d S=%d C=%d transient failure at %d, safety+liveness" % (W, S, C, F))
+    r = vlib.run_tlc("WorkflowFast", fcfg(2, 3, 2, F=2, tr="TRUE", ns="TRUE"), timeout=600)
+    if r.violated != "FaultMeansFalse":
+        raise vlib.InfraError("vacuity guard: a non-sticky error with a transient failure should violate FaultMeansFalse, got %s" % r.violated)
+    run.configs.append({"config": "negative: NonSticky + Transient", "violates": "FaultMeansFalse"})
     r = vlib.run_tlc("WorkflowFast", fcfg(2, 3, 2, F=3, se="FALSE"), timeout=600)
     if r.violated != "FaultMeansFalse":
         raise vlib.InfraError("vacuity guard: error not surfaced should violate FaultMeansFalse, got %s" % r.violated)
